@@ -2,6 +2,8 @@ import WalrusVerif.Model.Hex
 import WalrusVerif.Model.Sanitize
 import WalrusVerif.Model.WalKey
 import WalrusVerif.Model.Meta
+import WalrusVerif.Model.Engine
+import WalrusVerif.Model.Quirks
 /-!
 `wdriver`: line-protocol driver.  One request per line on stdin, one reply per line on stdout.
 It runs the very definitions the theorems in `WalrusVerif/Props` are about.
@@ -31,6 +33,9 @@ def handlePure (toks : List String) : Option String :=
 
 structure DState where
   md : Meta.ClusterState := Meta.ClusterState.init
+  cfg : Eng.Cfg := Eng.smallCfg
+  mode : Eng.Mode := .strict
+  proc : Eng.Proc := {}
 
 def replyStr : Meta.Reply → String
   | .exists_ => "EXISTS" | .created => "CREATED" | .rolled => "ROLLED" | .node => "NODE"
@@ -79,6 +84,100 @@ def handleMeta (st : DState) (toks : List String) : Option (DState × String) :=
     | none => some (st, "bad-op")
   | _ => none
 
+/-! ### engine (C01 …) -/
+
+def parseTopic (s : String) : Option Eng.Topic :=
+  match s.toList with
+  | 't' :: r => (String.ofList r).toNat?.map fun k => { id := k, long := false }
+  | 'L' :: r => (String.ofList r).toNat?.map fun k => { id := k, long := true }
+  | _ => none
+
+def parsePay (s : String) : Option Eng.Pay :=
+  match s.splitOn ":" with
+  | [a, b] =>
+    match a.toNat?, b.toNat? with
+    | some l, some sd => some { len := l, seed := sd }
+    | _, _ => none
+  | _ => none
+
+def parsePays (s : String) : Option (List Eng.Pay) :=
+  if s = "-" then some [] else (s.splitOn ",").mapM parsePay
+
+def parseMode (s : String) : Option Eng.Mode :=
+  if s = "strict" then some .strict
+  else match s.splitOn ":" with
+    | ["alo", n] => n.toNat?.map Eng.Mode.alo
+    | _ => none
+
+def fmtPay (p : Eng.Pay) : String := s!"{p.len}:{p.seed}"
+
+/-- payload byte `i` of descriptor `seed` (same PRF as harness/engine/src/prog.rs) -/
+def payByte (seed i : Nat) : Nat := 128 + ((seed + i * 37 + (i / 128) * 11) % 128)
+
+/-- digest of the suffix of a payload after trimming `trim` bytes: length, sum of the first ≤64 and
+of the last ≤64 bytes -/
+def fmtDigest (p : Eng.Pay) (trim : Nat) : String :=
+  let n := p.len - trim
+  let k := min n 64
+  let s1 := (List.range k).foldl (fun a j => a + payByte p.seed (trim + j)) 0
+  let s2 := (List.range k).foldl (fun a j => a + payByte p.seed (p.len - 1 - j)) 0
+  s!"~{n}:{s1}:{s2}"
+
+def fmtOut : Eng.Out → String
+  | .ok => "ok"
+  | .err .invalidInput => "err:invalidInput"
+  | .err .wouldBlock => "err:wouldBlock"
+  | .err .invalidData => "err:invalidData"
+  | .err .other => "err:other"
+  | .err .closed => "err:closed"
+  | .entry none => "none"
+  | .entry (some p) => fmtPay p
+  | .entries ps => "[" ++ ",".intercalate (ps.map fun (p, tr) => if tr = 0 then fmtPay p else s!"{fmtPay p}+{tr}") ++ "]"
+  | .num n => toString n
+  | .flag b => if b then "1" else "0"
+
+def parseEngOp (st : DState) (toks : List String) : Option Eng.Op :=
+  match toks with
+  | ["clock", ms] => ms.toNat?.map Eng.Op.clock
+  | ["open"] => some (.open_ st.mode)
+  | ["close"] => some .close
+  | ["restart"] => some .restart
+  | ["append", t, p] => do some (.append (← parseTopic t) (← parsePay p))
+  | ["batch", t, ps] => do some (.batch (← parseTopic t) (← parsePays ps))
+  | ["next", t, cp] => do some (.next (← parseTopic t) (cp == "1"))
+  | ["bread", t, m, cp, off] => do
+    let start ← if off = "-" then some none else off.toNat?.map some
+    some (.bread (← parseTopic t) (← m.toNat?) (cp == "1") start)
+  | ["count", t] => do some (.count (← parseTopic t))
+  | ["size", t] => do some (.size (← parseTopic t))
+  | ["mark", t, "clean"] => do some (.mark (← parseTopic t) true)
+  | ["mark", t, "dirty"] => do some (.mark (← parseTopic t) false)
+  | ["isclean", t] => do some (.isClean (← parseTopic t))
+  | ["persist"] => some .persist
+  | ["reclaim"] => some .reclaim
+  | _ => none
+
+def handleEng (st : DState) (toks : List String) : Option (DState × String) :=
+  match toks with
+  | ["eng", "cfg", g, m, _backend] =>
+    match parseMode m with
+    | some mode =>
+      let cfg := if g = "small" then Eng.smallCfg else Eng.realCfg
+      some ({ st with cfg := cfg, mode := mode, proc := {} }, "ok")
+    | none => some (st, "bad-op")
+  | "eng" :: rest =>
+    match parseEngOp st rest with
+    | some op =>
+      let (p, o) := Eng.step st.cfg st.proc op
+      let q := Eng.fires st.cfg st.proc op
+      let pre := if q.isEmpty then "" else "#quirk " ++ ",".intercalate q ++ "\n"
+      let txt := pre ++ match op, o with
+        | .bread _ _ _ (some _), .entries ps => "[" ++ ",".intercalate (ps.map fun (p, tr) => fmtDigest p tr) ++ "]"
+        | _, _ => fmtOut o
+      some ({ st with proc := p }, txt)
+    | none => some (st, "bad-op")
+  | _ => none
+
 def step (st : DState) (line : String) : DState × String :=
   let toks := (line.trimAscii.toString.splitOn " ").filter (· ≠ "")
   match handlePure toks with
@@ -86,7 +185,10 @@ def step (st : DState) (line : String) : DState × String :=
   | none =>
     match handleMeta st toks with
     | some r => r
-    | none => (st, "bad-op")
+    | none =>
+      match handleEng st toks with
+      | some r => r
+      | none => (st, "bad-op")
 
 partial def loop (h : IO.FS.Stream) (out : IO.FS.Stream) (st : DState) : IO Unit := do
   let line ← h.getLine
